@@ -159,6 +159,27 @@ def run_one(ctx, label, img, meta, ops, mnt):
             clk.t = clock_tuple(i + 1)
             ctx.dist[op[0]] += 1
             kinds.add(op[0])
+            if op[0] == "remove-by-alias":
+                # ["remove-by-alias", dir, name]: the entry is removed through its 8.3 alias, as the independent reader sees the alias in the
+                # live image; the reference removes the name itself.  What any reference answers: the removed path does not exist afterwards
+                try:
+                    sv = fatspec_volume(ir.dev.volume(), meta)
+                    loc = sv.root_loc()
+                    for seg in [x for x in op[1].split("/") if x]:
+                        loc = [e for e in sv.read_dir(loc, mnt.get("encoding", "ibm437")) if e["name"] == seg][0]["cluster"]
+                    alias = [e for e in sv.read_dir(loc, mnt.get("encoding", "ibm437")) if e["name"] == op[2]][0]["short"]
+                except Exception as e:  # noqa
+                    ctx.violation(f"{label}: op {i}: the independent reader cannot find {op[2]!r} in {op[1]} of the live image: {e}", "alias-lookup", dict(rep, at=i))
+                    return
+                ares, _ = ir.op(["remove", op[1] + "/" + alias])
+                ref.remove(op[1] + "/" + op[2])
+                eres, _ = ir.op(["exists", op[1] + "/" + alias])
+                nres, _ = ir.op(["exists", op[1] + "/" + op[2]])
+                if ares[0] != "ok" or eres != ("ok", False) or nres != ("ok", False):
+                    ctx.violation(f"{label}: op {i}: remove({op[1]}/{alias}) (the alias of {op[2]!r}) -> {ares}; afterwards exists(alias) = {eres}, exists(name) = {nres}",
+                                  "remove-by-alias", dict(rep, at=i, alias=alias))
+                    return
+                continue
             if op[0] in ("create", "touch"):
                 try:
                     if ref.isdir(op[1]):
@@ -299,7 +320,9 @@ def scripted(i, bpc):
     if k == 0:     # case variants that both carry a long name are distinct entries; removing one must not touch the other
         return [["makedir", "/cs"], ["writebytes", "/cs/nOtes.txt", "aa" * 40], ["writebytes", "/cs/Notes.txt", "bb" * 50], ["makedir", "/cs/sUb"], ["makedir", "/cs/Sub"],
                 ["remove", "/cs/Notes.txt"], ["readbytes", "/cs/nOtes.txt"], ["listdir", "/cs"], ["removedir", "/cs/Sub"], ["isdir", "/cs/sUb"], ["listdir", "/cs"],
-                ["removetree", "/cs"], ["exists", "/cs"]]
+                ["writebytes", "/cs/Readme.txt", "cc" * 30], ["writebytes", "/cs/readme.txt", "dd" * 20], ["writebytes", "/cs/reAdme.txt", "ee" * 10],
+                ["remove-by-alias", "/cs", "Readme.txt"], ["listdir", "/cs"], ["readbytes", "/cs/readme.txt"], ["remove-by-alias", "/cs", "reAdme.txt"],
+                ["readbytes", "/cs/readme.txt"], ["listdir", "/cs"], ["removetree", "/cs"], ["exists", "/cs"]]
     if k == 1:     # a file regrown into the hole below its head cluster, then removed: the freed clusters must be allocatable again
         return [["writebytes", "/BIG.BIN", "11" * (30 * bpc)], ["writebytes", "/SMALL.BIN", "22" * bpc], ["remove", "/BIG.BIN"],
                 ["appendbytes", "/SMALL.BIN", "33" * (20 * bpc)], ["getsize", "/SMALL.BIN"], ["remove", "/SMALL.BIN"], ["listdir", "/"]]
